@@ -215,12 +215,10 @@ Qed.
 Lemma skipn_firstn_split {A} d n (l : list A) : (d <= n)%nat ->
   skipn d l = skipn d (firstn n l) ++ skipn n l.
 Proof.
-  intros H. rewrite <- (firstn_skipn n l) at 1.
-  rewrite skipn_app. rewrite firstn_length.
-  destruct (Nat.le_gt_cases n (length l)) as [Hl|Hl].
-  - rewrite Nat.min_l by exact Hl. replace (d - n)%nat with 0%nat by lia. reflexivity.
-  - rewrite Nat.min_r by lia. rewrite (skipn_all2 l) by lia.
-    rewrite !app_nil_r. destruct (d - length l)%nat; reflexivity.
+  intros H. destruct (Nat.le_gt_cases n (length l)) as [Hl|Hl].
+  - rewrite <- (firstn_skipn n l) at 1. rewrite skipn_app, firstn_length, Nat.min_l by exact Hl.
+    replace (d - n)%nat with 0%nat by lia. reflexivity.
+  - rewrite firstn_all2, (skipn_all2 (n := n)) by lia. rewrite app_nil_r. reflexivity.
 Qed.
 
 Lemma anycast_rewrite_spec d p addr :
